@@ -144,7 +144,9 @@ def revolve(
     # remove any zero-area triangle
     # this covers many cases without having to think too much
     # the last quad refers to the slice after next: wrap it as the final faces are
-    single = single[triangles.area(vertices[single % len(vertices)]) > tol.merge]
+    # and compare with the largest triangle so the test does not depend on units
+    area = triangles.area(vertices[single % len(vertices)])
+    single = single[area > tol.merge * area.max()]
 
     # how much to offset each slice
     # note arange multiplied by vertex stride
